@@ -109,7 +109,22 @@ func (f *frame) clone() *frame {
 
 func (ex *Executor) Fresh(hint, sort string) *Term {
 	ex.fresh++
-	return Const(fmt.Sprintf("%s!%d", hint, ex.fresh), sort)
+	name := fmt.Sprintf("%s!%d", hint, ex.fresh)
+	// (the counter restarts with every function: the same name may already stand for a
+	// constant of another sort in another function's obligations)
+	if !constSortFree(name, sort) {
+		name = fmt.Sprintf("%s!%s!%d", hint, strings.NewReplacer("(", "", ")", "", " ", "_").Replace(sort), ex.fresh)
+	}
+	return Const(name, sort)
+}
+
+// constSortFree: name is undeclared, or declared as a constant of this sort.
+func constSortFree(name, sort string) bool {
+	n := smtName(name)
+	gsymMu.Lock()
+	defer gsymMu.Unlock()
+	d, ok := gsym.decls[n]
+	return !ok || (len(d.Args) == 0 && d.Ret == sort)
 }
 
 func (ex *Executor) newCell(st *State, v Value) int {
